@@ -68,6 +68,234 @@ pub open spec fn pushed<T>(n: BVHNode<T>) -> Seq<BVHNode<T>> {
 pub open spec fn vals<T>(s: Seq<&BVHNode<T>>) -> Seq<BVHNode<T>> {
     s.map_values(|r: &BVHNode<T>| *r)
 }
+
+// ---------------------------------------------------------------------------------------------------------------
+// The whole traversal, as a theorem over the contract of `next`
+// ---------------------------------------------------------------------------------------------------------------
+
+/// what one call of `next` does to the stack (the nodes it points to), as a function
+pub open spec fn step<T>(s: Seq<BVHNode<T>>, ray: Ray) -> (Option<BVHNode<T>>, Seq<BVHNode<T>>)
+    decreases s.len(),
+{
+    if s.len() == 0 {
+        (None, Seq::empty())
+    } else if hit(box_of(s.last()), ray) {
+        (Some(s.last()), s.drop_last() + pushed(s.last()))
+    } else {
+        step(s.drop_last(), ray)
+    }
+}
+
+/// the nodes returned by calling `next` until it answers None (at most `fuel` calls)
+pub open spec fn visit<T>(s: Seq<BVHNode<T>>, ray: Ray, fuel: nat) -> Seq<BVHNode<T>>
+    decreases fuel,
+{
+    if fuel == 0 {
+        Seq::empty()
+    } else {
+        match step(s, ray).0 {
+            None => Seq::empty(),
+            Some(n) => seq![n] + visit(step(s, ray).1, ray, (fuel - 1) as nat),
+        }
+    }
+}
+
+pub open spec fn size<T>(n: BVHNode<T>) -> nat
+    decreases n,
+{
+    match n {
+        BVHNode::Leaf { .. } => 1,
+        BVHNode::Node { left, right, .. } => {
+            let l = if let Some(lb) = left { size(*lb) } else { 0 };
+            let r = if let Some(rb) = right { size(*rb) } else { 0 };
+            1 + l + r
+        }
+    }
+}
+
+pub open spec fn total<T>(s: Seq<BVHNode<T>>) -> nat
+    decreases s.len(),
+{
+    if s.len() == 0 { 0 } else { total(s.drop_last()) + size(s.last()) }
+}
+
+/// the nodes of a subtree that pruning leaves: a node whose box the ray misses goes with everything below it
+pub open spec fn unpruned<T>(n: BVHNode<T>, ray: Ray) -> Seq<BVHNode<T>>
+    decreases n,
+{
+    if !hit(box_of(n), ray) {
+        Seq::empty()
+    } else {
+        match n {
+            BVHNode::Leaf { .. } => seq![n],
+            BVHNode::Node { left, right, .. } => {
+                let l = if let Some(lb) = left { unpruned(*lb, ray) } else { Seq::empty() };
+                let r = if let Some(rb) = right { unpruned(*rb, ray) } else { Seq::empty() };
+                seq![n] + l + r
+            }
+        }
+    }
+}
+
+/// ... of a stack of subtrees, topmost first
+pub open spec fn unpruned_stack<T>(s: Seq<BVHNode<T>>, ray: Ray) -> Seq<BVHNode<T>>
+    decreases s.len(),
+{
+    if s.len() == 0 { Seq::empty() } else { unpruned(s.last(), ray) + unpruned_stack(s.drop_last(), ray) }
+}
+
+proof fn lemma_size_pos<T>(n: BVHNode<T>)
+    ensures size(n) >= 1,
+{
+}
+
+proof fn lemma_total_concat<T>(a: Seq<BVHNode<T>>, b: Seq<BVHNode<T>>)
+    ensures total(a + b) == total(a) + total(b),
+    decreases b.len(),
+{
+    if b.len() == 0 {
+        assert(a + b =~= a);
+    } else {
+        assert((a + b).drop_last() =~= a + b.drop_last());
+        assert((a + b).last() == b.last());
+        lemma_total_concat(a, b.drop_last());
+    }
+}
+
+proof fn lemma_unpruned_concat<T>(a: Seq<BVHNode<T>>, b: Seq<BVHNode<T>>, ray: Ray)
+    ensures unpruned_stack(a + b, ray) == unpruned_stack(b, ray) + unpruned_stack(a, ray),
+    decreases b.len(),
+{
+    if b.len() == 0 {
+        assert(a + b =~= a);
+        assert(unpruned_stack(b, ray) + unpruned_stack(a, ray) =~= unpruned_stack(a, ray));
+    } else {
+        assert((a + b).drop_last() =~= a + b.drop_last());
+        assert((a + b).last() == b.last());
+        lemma_unpruned_concat(a, b.drop_last(), ray);
+        assert(unpruned(b.last(), ray) + (unpruned_stack(b.drop_last(), ray) + unpruned_stack(a, ray))
+            =~= (unpruned(b.last(), ray) + unpruned_stack(b.drop_last(), ray)) + unpruned_stack(a, ray));
+    }
+}
+
+
+proof fn lemma_single<T>(x: BVHNode<T>, ray: Ray)
+    ensures
+        total(seq![x]) == size(x),
+        unpruned_stack(seq![x], ray) == unpruned(x, ray),
+{
+    let s = seq![x];
+    assert(s.drop_last() =~= Seq::<BVHNode<T>>::empty());
+    assert(s.last() == x);
+    assert(total(s.drop_last()) == 0);
+    assert(unpruned_stack(s.drop_last(), ray) =~= Seq::<BVHNode<T>>::empty());
+    assert(unpruned(x, ray) + Seq::<BVHNode<T>>::empty() =~= unpruned(x, ray));
+}
+
+proof fn lemma_empty<T>(ray: Ray)
+    ensures
+        total(Seq::<BVHNode<T>>::empty()) == 0,
+        unpruned_stack(Seq::<BVHNode<T>>::empty(), ray) == Seq::<BVHNode<T>>::empty(),
+{
+}
+
+/// the children a visited node leaves on the stack weigh one less than the node, and pruning them gives the pruned
+/// subtrees left-first
+proof fn lemma_pushed<T>(n: BVHNode<T>, ray: Ray)
+    ensures
+        total(pushed(n)) + 1 == size(n),
+        hit(box_of(n), ray) ==> unpruned(n, ray) == seq![n] + unpruned_stack(pushed(n), ray),
+{
+    match n {
+        BVHNode::Leaf { .. } => {
+            lemma_empty::<T>(ray);
+            assert(pushed(n) =~= Seq::empty());
+            assert(seq![n] + unpruned_stack(pushed(n), ray) =~= seq![n]);
+        }
+        BVHNode::Node { left, right, .. } => {
+            let r = if let Some(rb) = right { seq![*rb] } else { Seq::empty() };
+            let l = if let Some(lb) = left { seq![*lb] } else { Seq::empty() };
+            assert(pushed(n) == r + l);
+            lemma_total_concat(r, l);
+            lemma_unpruned_concat(r, l, ray);
+            lemma_empty::<T>(ray);
+            if let Some(rb) = right {
+                lemma_single(*rb, ray);
+            }
+            if let Some(lb) = left {
+                lemma_single(*lb, ray);
+            }
+            if hit(box_of(n), ray) {
+                assert(unpruned(n, ray) =~= seq![n] + (unpruned_stack(l, ray) + unpruned_stack(r, ray)));
+            }
+        }
+    }
+}
+
+/// THEOREM (C13.traversal.visits_exactly_unpruned): calling `next` until None returns, in preorder, exactly the nodes
+/// every ancestor of which - and which themselves - have a box the ray meets; nothing else is visited, nothing of it
+/// is skipped
+proof fn theorem_traversal<T>(s: Seq<BVHNode<T>>, ray: Ray, fuel: nat)
+    requires fuel >= total(s),
+    ensures visit(s, ray, fuel) == unpruned_stack(s, ray), //@v[C13.traversal.visits_exactly_unpruned]
+    decreases fuel, s.len(),
+{
+    if s.len() == 0 {
+        assert(visit(s, ray, fuel) =~= Seq::empty());
+    } else {
+        lemma_size_pos(s.last());
+        if hit(box_of(s.last()), ray) {
+            let rest = s.drop_last();
+            let s2 = rest + pushed(s.last());
+            lemma_total_concat(rest, pushed(s.last()));
+            lemma_pushed(s.last(), ray);
+            theorem_traversal(s2, ray, (fuel - 1) as nat);
+            lemma_unpruned_concat(rest, pushed(s.last()), ray);
+            assert(visit(s, ray, fuel) == seq![s.last()] + visit(s2, ray, (fuel - 1) as nat));
+            assert(seq![s.last()] + (unpruned_stack(pushed(s.last()), ray) + unpruned_stack(rest, ray))
+                =~= (seq![s.last()] + unpruned_stack(pushed(s.last()), ray)) + unpruned_stack(rest, ray));
+        } else {
+            theorem_traversal(s.drop_last(), ray, fuel);
+            assert(step(s, ray) == step(s.drop_last(), ray));
+            assert(visit(s, ray, fuel) == visit(s.drop_last(), ray, fuel));
+            assert(unpruned(s.last(), ray) + unpruned_stack(s.drop_last(), ray) =~= unpruned_stack(s.drop_last(), ray));
+        }
+    }
+}
+
+/// the contract of `next` determines its outcome: it is `step`
+proof fn lemma_step_some<T>(s: Seq<BVHNode<T>>, ray: Ray, k: int)
+    requires
+        0 <= k < s.len(),
+        hit(box_of(s[k]), ray),
+        forall|j: int| k < j < s.len() ==> !hit(box_of(#[trigger] s[j]), ray),
+    ensures step(s, ray) == (Some(s[k]), s.subrange(0, k) + pushed(s[k])),
+    decreases s.len(),
+{
+    if k == s.len() - 1 {
+        assert(s.drop_last() =~= s.subrange(0, k));
+    } else {
+        assert(!hit(box_of(s[s.len() - 1]), ray));
+        let d = s.drop_last();
+        assert(d[k] == s[k]);
+        assert forall|j: int| k < j < d.len() implies !hit(box_of(#[trigger] d[j]), ray) by { assert(d[j] == s[j]); }
+        lemma_step_some(d, ray, k);
+        assert(d.subrange(0, k) =~= s.subrange(0, k));
+    }
+}
+
+proof fn lemma_step_none<T>(s: Seq<BVHNode<T>>, ray: Ray)
+    requires forall|j: int| 0 <= j < s.len() ==> !hit(box_of(#[trigger] s[j]), ray),
+    ensures step(s, ray) == (None::<BVHNode<T>>, Seq::<BVHNode<T>>::empty()),
+    decreases s.len(),
+{
+    if s.len() > 0 {
+        assert(!hit(box_of(s[s.len() - 1]), ray));
+        let d = s.drop_last();
+        assert forall|j: int| 0 <= j < d.len() implies !hit(box_of(#[trigger] d[j]), ray) by { assert(d[j] == s[j]); }
+        lemma_step_none(d, ray);
+    }
+}
 """
 
 # contract of next: (label, clause)
@@ -85,7 +313,12 @@ ENSURES = [
                 None => final(self).stack@.len() == 0
                     && (forall|j: int| 0 <= j < old(self).stack@.len() ==> !hit(box_of(*#[trigger] old(self).stack@[j]), old(self).ray)),
             }"""),
+    # the contract determines the outcome: one call is the function `step` on the stack - the link between the real
+    # code and the whole-traversal theorem (GHOST: theorem_traversal)
+    ("C13.traversal.is_step", "(match res { Some(n) => Some(*n), None => None::<BVHNode<T>> }, vals(final(self).stack@)) == step(vals(old(self).stack@), old(self).ray)"),
 ]
+# proved in GHOST over `step` alone (no executable code): calling `next` until None returns exactly the unpruned nodes
+THEOREMS = ["C13.traversal.visits_exactly_unpruned"]
 
 WHILE_ANCHOR = r"while let Some\(node\) = self\.stack\.pop\(\) \{"
 LOOP_INVARIANTS = [
@@ -108,5 +341,8 @@ INSERTS = [
     (r"return Some\(node\);", "before",
      "proof {\n"
      "    assert(vals(self.stack@) =~= vals(old(self).stack@).subrange(0, k) + pushed(*node)); // C13.traversal.children_pushed\n"
+     "    lemma_step_some(vals(old(self).stack@), self.ray, k);\n"
      "}"),
+    (r"^\s*None$", "before",
+     "proof { lemma_step_none(vals(old(self).stack@), self.ray); assert(vals(self.stack@) =~= Seq::<BVHNode<T>>::empty()); }"),
 ]
